@@ -139,7 +139,9 @@ func (cm cronMask) IsRunAt(t time.Time) bool {
 			return false
 		}
 		tm := t.Month()
-		m := t.Add(time.Hour * 7 * 24).Month()
+		// same wall-clock time one week later (not 168 hours: a week with a
+		// daylight-saving transition is an hour shorter or longer)
+		m := t.AddDate(0, 0, 7).Month()
 		if tm != m {
 			return true
 		}
